@@ -12,14 +12,14 @@ TraceInit == Init /\ l = 1
 IsEvent(e) == l <= Len(TraceLog) /\ E.ev = e /\ l' = l + 1
 
 Reset == /\ IsEvent("Reset")
-         /\ tasks' = [a \in Agents |-> {}] /\ used' = {} /\ open' = [a \in Agents |-> FALSE]
+         /\ tasks' = [a \in Agents |-> {}] /\ used' = {} /\ open' = [a \in Agents |-> 0]
          /\ last' = None /\ hist' = <<>>
 
 LoggedTasks == [a \in Agents |-> ToSet(E.st.tasks[a])]
 
 SIssue == IsEvent("Issue") /\ Issue(E.a, E.r) /\ tasks' = LoggedTasks
 SCallback == /\ IsEvent("Callback") /\ Callback(E.a, E.r, E.c)
-             /\ tasks' = LoggedTasks /\ open' = E.st.open
+             /\ tasks' = LoggedTasks /\ \A a \in Agents : (open'[a] > 0) = E.st.open[a]
              /\ last'.effect = E.res.effect
 
 (* monitor: outstanding ids are rebuilt from the calls alone; `open` and the effect come from the log *)
@@ -36,7 +36,10 @@ MCallback == LET acc == Accepted(E.a, E.r, E.c) IN
 
 SHandOut == IsEvent("HandOut") /\ HandOut(E.a) /\ tasks' = LoggedTasks
 MHandOut == IsEvent("HandOut") /\ last' = [None EXCEPT !.op = "HandOut", !.a = E.a] /\ UNCHANGED <<tasks, used, open, hist>>
+SRelayJob == IsEvent("RelayJob") /\ RelayJob(E.a) /\ tasks' = LoggedTasks
+MRelayJob == IsEvent("RelayJob") /\ last' = [None EXCEPT !.op = "RelayJob", !.a = E.a] /\ UNCHANGED <<tasks, used, open, hist>>
 TraceNext == \/ Reset
+             \/ (Strict /\ SRelayJob) \/ (~Strict /\ MRelayJob)
              \/ (Strict /\ SHandOut) \/ (~Strict /\ MHandOut)
              \/ (Strict /\ (SIssue \/ SCallback))
              \/ (~Strict /\ (MIssue \/ MCallback))
